@@ -83,6 +83,10 @@ def manager_for(case):
 
 def _inject(m, case):
     method = case["method"]
+    if case.get("load_years"):
+        m._design.load_years = list(case["load_years"])  # as Design*(..., load_years=[...]) would hold them
+    else:
+        m._design.load_years = [2019]
     syn = case.get("synthetic")
     d = m._design
     if syn is not None:
@@ -158,7 +162,8 @@ def execute(case):
             _devnull.seek(0)
             _devnull.truncate(0)
         worlds.end()
-    obs = {"outcome": out, "exc": exc, "queries": log.queries, "ghe_inits": log.ghe_inits, "gfunc_calls": log.gfunc_calls}
+    obs = {"outcome": out, "exc": exc, "queries": log.queries, "ghe_inits": log.ghe_inits, "gfunc_calls": log.gfunc_calls,
+           "gheights": log.gheights, "load_years": log.load_years, "design_load_years": list(getattr(m._design, "load_years", []) or [])}
     if out == "design":
         s = m._search
         ghe = s.ghe
@@ -258,6 +263,22 @@ def judge(case, obs):
     def v(prop, kindname, msg, observed=None, expected=None, **attrs):
         V[prop].append(core.viol(kindname, case, observed=observed, expected=expected, msg=msg, method=method, **attrs))
 
+    # ---- C01 (inputs of every evaluation): the long-time g-function of a one-curve evaluation must be the one computed for the
+    # height that is simulated, and every GHE must be built for the design's load years
+    for hs, hsim in obs.get("gheights", []):
+        if len(hs) == 1 and abs(hs[0] - hsim) > 1e-9:
+            v("C01", "g_function_for_another_height", f"{method}: a candidate was simulated at {hsim} m with the g-function computed for {hs[0]} m",
+              observed=list(hs), expected=hsim)
+            break
+        if len(hs) > 1 and not (min(hs) - 1e-9 <= hsim <= max(hs) + 1e-9):
+            v("C01", "g_function_for_another_height", f"{method}: simulated at {hsim} m outside the heights {hs} the g-functions were computed for")
+            break
+    dly = obs.get("design_load_years")
+    if dly:
+        for ly in obs.get("load_years", []):
+            if ly is not None and ly != dly:
+                v("C01", "load_years_not_passed_on", f"{method}: the design holds load_years={dly} but a GHE was built with load_years={ly}", observed=ly, expected=dly)
+                break
     # ---- C02: exception type
     if out.startswith("exc:"):
         v("C02", "wrong_exception_type", f"{method}: find_design raised {out[4:]}: {obs['exc']}", observed=out,
@@ -657,7 +678,7 @@ def expand(chunk):
                 for cap in sorted({x for x in capset if x is None or x >= 2}, key=lambda x: (x is not None, x)):
                     for cont in (False, True):
                         yield {"fam": fam, "method": method, "geo": geo, "cap": cap, "cont": cont,
-                               "flow": chunk.get("flow", "borehole"),
+                               "flow": chunk.get("flow", "borehole"), "load_years": chunk.get("load_years"),
                                "world": {"kind": "drill", "T": T, **WVARS[chunk.get("wv", 0)]}, "need_count": c, "level": lvl}
     elif fam == "A6":
         geo = chunk["geo"]
@@ -667,7 +688,7 @@ def expand(chunk):
                            ("bottom", c * HMIN * (1 - 1e-3) - IRR)):
                 for cont in (False, True):
                     yield {"fam": fam, "method": "rowwise", "geo": geo, "cap": None, "cont": cont,
-                           "flow": chunk.get("flow", "borehole"),
+                           "flow": chunk.get("flow", "borehole"), "load_years": chunk.get("load_years"),
                            "world": {"kind": "drill", "T": T, **WVARS[chunk.get("wv", 0)]}, "need_count": c, "level": lvl}
     elif fam == "A8":
         # narrow spacing windows on a lattice of lot sizes: many admit no whole number of rows (empty candidate list)
